@@ -62,6 +62,8 @@ ChainCases ==
      key |-> "chain (" \o IntStr(tr[1]) \o o1 \o IntStr(tr[2]) \o ")" \o o2 \o IntStr(tr[3])] : o1 \in BinOpsAll, o2 \in BinOpsAll, tr \in Triples }
   \cup { [t |-> <<SPrint(Bin(o1, Lit(N(tr[1])), Bin(o2, Lit(N(tr[2])), Lit(N(tr[3])))))>>, c |-> "chain|" \o o1 \o "|" \o o2 \o "|right",
      key |-> "chain " \o IntStr(tr[1]) \o o1 \o "(" \o IntStr(tr[2]) \o o2 \o IntStr(tr[3]) \o ")"] : o1 \in BinOpsAll, o2 \in BinOpsAll, tr \in Triples }
+  \cup { [t |-> <<SPrint(Bin(o2, Bin(o1, Lit(S("k")), Lit(N(1))), Lit(N(2))))>>, c |-> "chain|" \o o1 \o "|" \o o2 \o "|string-left", key |-> "chain (k" \o o1 \o "1)" \o o2 \o "2"] : o1 \in {"+", "-", "*"}, o2 \in {"+", "-", "*"} }
+  \cup { [t |-> <<SPrint(Bin(o2, Bin(o1, Lit(N(1)), Lit(N(2))), Lit(S("k"))))>>, c |-> "chain|" \o o1 \o "|" \o o2 \o "|string-right", key |-> "chain (1" \o o1 \o "2)" \o o2 \o "k"] : o1 \in {"+", "-"}, o2 \in {"+"} }
   \cup { [t |-> <<SPrint(Un(u, Bin(o, Lit(N(5)), Lit(N(2)))))>>, c |-> "chain|un" \o u \o "|" \o o \o "|around", key |-> "chain " \o u \o "(5" \o o \o "2)"] : u \in {"-", "~", "!"}, o \in BinOpsAll }
   \cup { [t |-> <<SPrint(Bin(o, Un(u, Lit(N(5))), Lit(N(2))))>>, c |-> "chain|un" \o u \o "|" \o o \o "|left", key |-> "chain (" \o u \o "5)" \o o \o "2"] : u \in {"-", "~", "!"}, o \in BinOpsAll }
   \cup { [t |-> <<SPrint(Bin(o, Lit(N(5)), Un(u, Lit(N(2)))))>>, c |-> "chain|un" \o u \o "|" \o o \o "|right", key |-> "chain 5" \o o \o "(" \o u \o "2)"] : u \in {"-", "~", "!"}, o \in BinOpsAll }
